@@ -573,9 +573,9 @@ namespace fixedmath
   [[ nodiscard, gnu::const, gnu::always_inline ]]
   constexpr fixed_t ceil( fixed_t value ) noexcept
     {
-    fixed_internal result { (value.v + 0xffff) & ~((1<<16ll)-1) };
-    if( value.v < result ) 
-      return as_fixed(result);
+    //above max() - 0xffff there is no representable ceiling and the addition would overflow
+    if( fixed_likely( value.v <= detail::limits_::max().v - 0xffff ) )
+      return as_fixed( (value.v + 0xffff) & ~((1<<16ll)-1) );
     return quiet_NaN_result();
     }
   
